@@ -90,7 +90,11 @@ static void print_msg(const char * type, int line_no, const char * format, va_li
 
         va_copy(args_copy, args);
         msg_len = snprintf(msg_buf, MAX_MSG_SIZE, "%s:%d: %s: ", utils_file_name, line_no, type);
-        msg_len += vsnprintf(msg_buf + msg_len, MAX_MSG_SIZE, format, args_copy);
+        if (msg_len >= MAX_MSG_SIZE)
+        {
+            msg_len = MAX_MSG_SIZE - 1;
+        }
+        msg_len += vsnprintf(msg_buf + msg_len, MAX_MSG_SIZE - msg_len, format, args_copy);
         va_end(args_copy);
 
         (*utils_msg_array)[*utils_msg_count] = strdup(msg_buf);
